@@ -51,6 +51,15 @@ Proof. intros c ls s R. assert (A : forallb inv_phase_closed reach = true) by (v
 Theorem c08_no_fuel_exhaustion : forall c ls s, runS (entered c) ls = Some s -> v_fuel s = false.
 Proof. intros c ls s R. pose proof (inv_all _ all_inv_fuel c ls s R) as I. unfold inv_fuel in I. now apply negb_true_iff in I. Qed.
 
+(* interleavings inside a handler (a client handler suspended while another task raises an event): every rule that announces
+   CLIENT_FACADE_TEARDOWN first - before any await - assigns a state outside the guard of every such rule *)
+Theorem c08_teardown_rules_exclude_each_other_across_awaits :
+  forallb (fun r1 => forallb (fun r2 => match first_set r1, guard_states r2 with
+                                        | Some x, Some g => negb (existsb (sstate_eqb x) g)
+                                        | _, _ => false end) teardown_rules) teardown_rules = true /\
+  Nat.leb 3 (List.length teardown_rules) = true.
+Proof. exact teardown_rules_exclude_each_other. Qed.
+
 Example c08_nonvacuous : existsb (fun s => sstate_eqb (st s) CONNECTED) reach = true /\
   existsb (fun s => sstate_eqb (st s) ERROR_RF_FAULT) reach = true /\ Nat.ltb 100 (List.length reach) = true.
 Proof. vm_compute. repeat split; reflexivity. Qed.
